@@ -224,6 +224,15 @@ func c20nlJoinBools(xs []bool) string {
 // c20nlTokenStarts: rune offsets at which the tokens of src start (real lexer) and their types,
 // EOF excluded.
 func c20nlTokenStarts(src string) ([]int, []string) {
+	w, ok := c20Call("starts", src) // the real lexer runs in the worker only
+	if !ok {
+		return nil, nil
+	}
+	return w.Starts, w.Types
+}
+
+// worker side
+func c20nlTokenStartsLocal(src string) ([]int, []string) {
 	l := lexer.New(src)
 	var out []int
 	var types []string
@@ -399,14 +408,14 @@ func c20ParseNL(e *Env, rng *RNG) {
 			continue
 		}
 		seen[c.src] = true
-		toks, _, err := c01parseLex(c.src)
+		toks, _, err := c20wLex(e, c.src)
 		if err != nil {
 			e.R.Mismatch(c.src, "lexer error: "+err.Error(), "-", "real lexer rejects an expression text with line breaks")
 			continue
 		}
 		sexp := Sexp(c.tree)
 		c.toks = toks
-		pend = append(pend, pending{c: c, real: c01parseReal(c.src), sexp: sexp})
+		pend = append(pend, pending{c: c, real: c20wReal(e, c.src), sexp: sexp})
 		reqs = append(reqs, "C20\tparsenl\t"+cleanField(toks)+"\t"+sexp+"\t"+c.nls+"\t"+c.commas)
 		if len(reqs) >= 200 {
 			flush()
